@@ -35,6 +35,7 @@ ASSUMPTIONS = ["the library reads the time only through nixio.util.now_int / nix
                "overrides the generic setters without touching updated_at (observed, reported in the side channel) (A22)",
                "'the current time' = the value the controlled clock returns during the operation (the clock stands still inside one operation)"]
 
+LAYER_B = ['C19']      # monitors of nixmon/passive/plugin.py run over the repository's own tests in the thorough tier
 NSHARDS = 16
 TMAX = 4102444800      # 2100-01-01
 
